@@ -217,3 +217,110 @@ def _(c):
               label='mother-untouched')
     c.ensures('not same_array(result[0].state, result[1].state) and not same_array(result[0].state, parent.state)', label='daughters-do-not-share-storage')
     c.raises('ValueError')
+
+
+# ------------------------------------------------------------------------------------------------ partition tables from options
+MODE_FIELD = {'binomial': 'binomial_indices', 'perfect': 'perfect_indices', 'duplicate': 'duplicate_indices'}
+VMODE = {'binomial': 0, 'duplicate': 1, 'perfect': 2}
+SPECIES4 = ['A', 'B', 'Cc', 'D']
+
+
+def _vec(v):
+    if isinstance(v, Arr):
+        return None
+    return list(v) if isinstance(v, (list, tuple)) else None
+
+
+def lineage_splitter_init(variant, options, noise=None):
+    c = Contract('lineage', 'LineageVolumeSplitter.__init__', PROPS, variant=variant)
+    c.concrete_self = lambda ex, cls: ex.allocate(cls)
+
+    def setup(ex, fr):
+        ex.force_inline = True
+        M = ex.instantiate(ex.program.find_class('LineageModel'), [], dict(
+            species=list(SPECIES4), reactions=[(['A'], ['B'], 'massaction', {'k': 1.0})], initial_condition_dict={s: 1 for s in SPECIES4}))
+        fr.env['M'] = M
+        fr.env['options'] = dict(options)
+        fr.env['custom_partition_functions'] = {}
+        fr.env['partition_noise'] = ex.fresh('noise', REAL) if noise is None else noise
+    for nm in ('M', 'options', 'custom_partition_functions', 'partition_noise'):
+        c.hints[nm] = dict(value=None)
+    c.setup(setup)
+
+    def check(ex, fr, result):
+        ex.force_inline = False
+        me, M = fr.env['self'], fr.env['M']
+        s2i = M.fields['species2index']
+        default = options.get('default', 'binomial')
+        want = {f: [] for f in MODE_FIELD.values()}
+        for s in SPECIES4:
+            want[MODE_FIELD[options.get(s, default)]].append(ex.concrete_int(s2i[s]))
+        for f, idxs in want.items():
+            got = me.fields.get(f)
+            if isinstance(got, Arr):
+                n = got.shape[0]
+                ok = (isinstance(n, int) or n.is_const()) and ex.concrete_int(n) == len(idxs)
+                ex.oblige('post', tm.mk_bool(bool(ok)), label='%s-count' % f, note='expected %d entries' % len(idxs))
+                if ok:
+                    for k in range(len(idxs)):
+                        ex.oblige('post', tm.or_(*[tm.eq(tm.select(got.term, tm.mk_int(k)), tm.mk_int(i)) for i in idxs]), label='%s[%d]-is-a-species-of-that-mode' % (f, k))
+                    for i in idxs:
+                        ex.oblige('post', tm.or_(*[tm.eq(tm.select(got.term, tm.mk_int(k)), tm.mk_int(i)) for k in range(len(idxs))]),
+                                  label='species-%d-listed-in-%s' % (i, f), note='every species with this mode is listed (so the list has no repeats)')
+            else:
+                lst = _vec(got) or []
+                ex.oblige('post', tm.mk_bool(sorted(ex.concrete_int(x) for x in lst) == sorted(idxs)), label='%s-is-the-set-of-species-with-that-mode' % f,
+                          note='got %s, expected %s' % (lst, idxs))
+        ex.oblige('post', tm.eq(to_term(me.fields.get('how_to_split_v')), tm.mk_int(VMODE[options.get('volume', default)])), label='volume-mode')
+        ex.oblige('post', tm.eq(to_term(me.fields.get('partition_noise')), to_term(fr.env['partition_noise'])), label='partition-noise-stored')
+    c.after(check)
+    c.opt(verify_only=True)
+    C.REGISTRY[c.key] = c
+    C.ORDER.append(c.key)
+
+
+lineage_splitter_init('defaults', {})
+lineage_splitter_init('per-species-modes', {'A': 'perfect', 'B': 'duplicate', 'D': 'perfect'})
+lineage_splitter_init('default-perfect-volume-binomial', {'default': 'perfect', 'volume': 'binomial', 'Cc': 'binomial'})
+lineage_splitter_init('default-duplicate', {'default': 'duplicate', 'A': 'binomial'})
+lineage_splitter_init('default-perfect', {'default': 'perfect'})
+lineage_splitter_init('volume-duplicate', {'volume': 'duplicate', 'B': 'perfect'})
+
+
+def general_partitioning(variant, options):
+    c = Contract('simulator', 'GeneralVolumeSplitter.py_set_partitioning', PROPS, variant=variant)
+    c.concrete_self = lambda ex, cls: ex.instantiate(cls, [], {})
+
+    def setup(ex, fr):
+        ex.force_inline = True
+        M = ex.instantiate(ex.program.find_class('Model'), [], dict(
+            species=list(SPECIES4), reactions=[(['A'], ['B'], 'massaction', {'k': 1.0})], initial_condition_dict={s: 1 for s in SPECIES4}))
+        fr.env['m'] = M
+        fr.env['options'] = {k: list(v) for k, v in options.items()}
+    for nm in ('m', 'options'):
+        c.hints[nm] = dict(value=None)
+    c.setup(setup)
+
+    def check(ex, fr, result):
+        ex.force_inline = False
+        me, M = fr.env['self'], fr.env['m']
+        s2i = M.fields['species2index']
+        known = lambda L: [ex.concrete_int(s2i[s]) for s in L if s in s2i]
+        perfect, dup = known(options.get('perfect', [])), known(options.get('duplicate', []))
+        want = {'perfect_indices': perfect, 'duplicate_indices': dup,
+                'binomial_indices': [ex.concrete_int(s2i[s]) for s in SPECIES4 if ex.concrete_int(s2i[s]) not in perfect + dup]}
+        for f, idxs in want.items():
+            got = me.fields.get(f)
+            lst = [ex.concrete_int(x) for x in got] if isinstance(got, list) else None
+            ex.oblige('post', tm.mk_bool(lst is not None and sorted(lst) == sorted(idxs)), label='%s-is-the-set-of-species-with-that-mode-without-repeats' % f,
+                      note='got %r, expected %r' % (lst, sorted(idxs)))
+    c.after(check)
+    c.opt(verify_only=True)
+    C.REGISTRY[c.key] = c
+    C.ORDER.append(c.key)
+
+
+general_partitioning('all-binomial', {})
+general_partitioning('perfect-and-duplicate', {'perfect': ['A', 'D'], 'duplicate': ['B']})
+general_partitioning('unknown-names-ignored', {'perfect': ['Cc', 'nosuch'], 'duplicate': ['alsonot']})
+general_partitioning('set-twice', {'duplicate': ['A', 'B', 'Cc', 'D']})
